@@ -293,6 +293,35 @@ theorem C07_map_range_ok_partial {K V : Type} [DecidableEq K] (p : Model.Proto.P
     refine C07_complete p hmin u s0 s1 sts π h0 hpc htr hret hdep hres k i (fun σ hσ => ?_)
     exact hall _ (List.mem_map.mpr ⟨σ, hσ, rfl⟩)
 
+/-- **the cache's `Range` over the table protocol** (both files, every schedule without a publishing `Clear`): when the
+map underneath is the table protocol M4a and its `Range` call went through the window `sts` and returned `π`, the text
+of `Cache.Range` / `CacheOf.Range` calls the user's visitor at most once per key, only on values that key held in the
+current table in some state of the window and that were unexpired when the traversal began, and - if the visitor never
+stops - on every entry that stayed in the current table throughout and was unexpired when the traversal began -/
+theorem C07_cache_over_protocol {K V : Type} [DecidableEq K] [Inhabited V] (p : Model.Proto.Params K) (hmin : 0 < p.minLen)
+    (u : Model.Proto.Tid) (s0 s1 : Model.Proto.St K (Item V))
+    (sts : List (Model.Proto.St K (Item V))) (π : List (K × Item V)) (h0 : Model.Proto.Reach p s0)
+    (hpc : (s0.l u).pc = .rgTable) (htr : Proofs.ProtoRange.Trav p u (s0.l u).frames.length s0 sts s1)
+    (hncs : ∀ σ ∈ sts, Proofs.ProtoRange.NoClearPublish σ)
+    (hret : (s1.l u).pc = .ret) (hdep : (s1.l u).frames.length = (s0.l u).frames.length)
+    (hres : (s1.l u).result = some (.visits π)) (s : Cache.St K V) (f : K → V → Bool) :
+    ∃ visits,
+      Deep.deepStep (Deep.twinMapHanded π) s (.range f) = some (s, { out := .visits visits }) ∧
+      Deep.deepStep (Deep.twinMapOfHanded π) s (.range f) = some (s, { out := .visits visits }) ∧
+      (visits.map (·.1)).Nodup ∧
+      (∀ k v, (k, v) ∈ visits → ∃ i, i.v = v ∧ (∃ σ ∈ sts, Proofs.ProtoData.absGet σ.g k = some i) ∧ TTL.expired i.e s.now = false) ∧
+      ((∀ k v, f k v = true) → ∀ k i, (∀ σ ∈ sts, Proofs.ProtoData.absGet σ.g k = some i) → TTL.expired i.e s.now = false →
+        (k, i.v) ∈ visits) := by
+  have hok := C07_map_range_ok_partial p hmin u s0 s1 sts π h0 hpc htr hncs hret hdep hres
+  obtain ⟨visits, h1, h2, h3, h4, h5⟩ := C07_cache_conc s f _ π hok
+  refine ⟨visits, h1, h2, h3, ?_, ?_⟩
+  · intro k v hv
+    obtain ⟨i, hi, ⟨m, hm, hg⟩, hx⟩ := h4 k v hv
+    obtain ⟨σ, hσ, rfl⟩ := List.mem_map.mp hm
+    exact ⟨i, hi, ⟨σ, hσ, hg⟩, hx⟩
+  · intro hf k i hall hx
+    exact h5 hf k i (fun m hm => by obtain ⟨σ, hσ, rfl⟩ := List.mem_map.mp hm; exact hall σ hσ) hx
+
 theorem nodup_of_map {α β : Type} (f : α → β) (l : List α) (h : (l.map f).Nodup) : l.Nodup := by
   induction l with
   | nil => exact List.nodup_nil
